@@ -57,6 +57,14 @@ meta={"seed_id":id,"breaks_property":prop,"patch_applies":applies,"builds":build
  "commands":["git worktree add <scratch> HEAD; git apply patch.diff; go build ./...; go test -vet=off -count=1 ./...  (suite)",
              "copy demo_test.go into <demo_placed_in>; go test -run . .   (with patch, then after git checkout without patch)",
              "git -C /repo apply patch.diff; /verif/run.sh <property> quick; git -C /repo checkout -- ."]}
-json.dump(meta,open(f"/verif/seeded/{id}/meta.json","w"),indent=1)
+import os
+p=f"/verif/seeded/{id}/meta.json"
+if os.path.exists(p):
+    try:
+        old=json.load(open(p))
+        for k in ("note","caught_by_after_strengthening"):
+            if k in old: meta[k]=old[k]
+    except Exception: pass
+json.dump(meta,open(p,"w"),indent=1)
 print(id,"valid" if valid else "INVALID", "suite",suite,"demo with/without",dw,dwo,"| caught by:",caught or "NONE","|",results)
 PY
